@@ -7,7 +7,16 @@ vnacal_new(3)/vnacal_layout.h for every type, square or rectangular.
 import re
 import numpy as np
 
-NUM = re.compile(r'([+-]?(?:\d+\.?\d*(?:[eE][+-]?\d+)?|inf|nan))\s*([+-](?:\d+\.?\d*(?:[eE][+-]?\d+)?|inf|nan))j')
+_R = r'(?:0[xX][0-9a-fA-F]*\.?[0-9a-fA-F]*(?:[pP][+-]?\d+)?|\d+\.?\d*(?:[eE][+-]?\d+)?|inf|nan)'
+NUM = re.compile(r'([+-]?' + _R + r')\s*([+-]' + _R + r')j')
+
+
+def fnum(t):
+    """decimal or C99 hexadecimal floating point"""
+    t = t.strip()
+    if re.match(r'^[+-]?0[xX]', t):
+        return float.fromhex(t)
+    return float(t)
 
 
 def parse_item(t):
@@ -16,9 +25,9 @@ def parse_item(t):
         return None
     m = NUM.fullmatch(t)
     if m:
-        return complex(float(m.group(1)), float(m.group(2)))
+        return complex(fnum(m.group(1)), fnum(m.group(2)))
     try:
-        return float(t)
+        return fnum(t)
     except ValueError:
         return t
 
@@ -71,13 +80,18 @@ def parse_render(s):
     return node()
 
 
+class RawText(bytes):
+    pass
+
+
 def to_py(n):
     if n[0] == 'S':
         if n[2] and n[1] in (b'~', b'null'):
             return None
         return parse_item(n[1].decode('utf-8', 'replace'))
     if n[0] == 'M':
-        return {k[1].decode('utf-8', 'replace'): to_py(v) for k, v in n[1]}
+        # names and property values are text whatever they look like
+        return {k[1].decode('utf-8', 'replace'): (RawText(v[1]) if (k[1] == b'name' and v[0] == 'S') else to_py(v)) for k, v in n[1]}
     return [to_py(x) for x in n[1]]
 
 
@@ -99,7 +113,7 @@ def load(path, exe=None):
             dd = {}
             for k, v in d.items():
                 if k == 'f':
-                    dd['f'] = float(v)
+                    dd['f'] = fnum(v) if isinstance(v, str) else float(v)
                 elif isinstance(v, list):
                     dd[k] = v if (v and isinstance(v[0], list)) else [v]
             data.append(dd)
